@@ -278,7 +278,8 @@ func writeComputedFieldExpression(w *formatting.IndentedWriter, expression dsl.E
 			w.WriteString(" ")
 
 			requiresParentheses = false
-			if r, ok := t.Right.(*dsl.BinaryExpression); ok && r.Operator.Precedence() < t.Operator.Precedence() {
+			// operators of equal precedence associate to the left, so `a - (b - c)` must keep its parentheses
+			if r, ok := t.Right.(*dsl.BinaryExpression); ok && r.Operator.Precedence() <= t.Operator.Precedence() {
 				requiresParentheses = true
 			}
 
